@@ -17,7 +17,7 @@ META = {
     "engine": "smallscope",
     "technique": "exhaustive small-scope enumeration of models x containers x raw-dict spellings x labels x conversion entry points x all assignments x solution containers, truth-table comparison",
     "text": "Every source with <=3 variables over {-2,-1,1,3} (quick) / <=4 variables over {-2,1,3} (thorough) and <=3 terms, with/without offset, in every container, raw-dict "
-            "spelling (permuted / repeated labels) and label scheme goes through the four conversion functions, every to_* / to_enumerated method that "
+            "spelling (permuted / repeated labels; labelled models are also built from the repeated-label spelling) and label scheme goes through the four conversion functions, every to_* / to_enumerated method that "
             "needs no degree reduction, convert_solution for every assignment as dict/list/tuple in boolean and spin form, and the exports Q, h/J, "
             "qubo_to_matrix (symmetric x array) and matrix_to_qubo (all small matrices); tables, result types and argument immutability are compared "
             "with the reference table of the source.",
@@ -124,22 +124,25 @@ def check(case, st):
     conts = list(gen.SPIN_CONTAINERS if spin else gen.BOOL_CONTAINERS) + ["dictperm", "dictrep", "dictdup"]
     if len(D0) >= 2:
         conts += ["PUSO-rev", "QUSO-rev"] if spin else ["PUBO-rev", "QUBO-rev"]     # same terms, opposite insertion order
+    # labelled models built from a raw dict whose keys repeat labels (the labels must still be registered once each)
+    conts += ["PUSO-rep", "QUSO-rep", "PCSO-rep"] if spin else ["PUBO-rep", "QUBO-rep", "PCBO-rep"]
     # user-chosen enumeration through the documented set_mapping / set_reverse_mapping
     conts += ["PUSO-setmap", "QUSO-setrev", "PCSO-setrev"] if spin else ["PUBO-setmap", "QUBO-setrev", "PCBO-setrev"]
     for cont_ in conts:
         is_rev = cont_.endswith("-rev")
+        is_rep = cont_.endswith("-rep")
         setmap = cont_.split("-")[1] if ("-set" in cont_) else None
         cont = cont_.split("-")[0]
         if cont in gen.DEG2 and deg > 2:
             continue
         for sch in (gen.MATRIX_SCHEMES if cont in gen.MATRIX else gen.LABELLED_SCHEMES):
-            if (is_rev or setmap) and sch not in ("int", "str", "rstr"):
+            if (is_rev or setmap or is_rep) and sch not in ("int", "str", "rstr"):
                 continue
             D = gen.relabel(D0, sch, N)
             if is_rev:
                 D = dict(reversed(list(D.items())))
             labels = gen.labels_for(sch, N)
-            M = spell(D, cont, spin) if cont in ("dictperm", "dictrep", "dictdup") else gen.build(cont, D)
+            M = spell(D, cont, spin) if cont in ("dictperm", "dictrep", "dictdup") else gen.build(cont, spell(D, "dictrep", spin) if is_rep else D)
             if setmap:
                 # convert once BEFORE the enumeration is changed: nothing may remember the old one
                 for _t in ("to_pubo", "to_puso", "to_qubo", "to_quso"):
